@@ -268,7 +268,7 @@ Judge(k, x, obs) ==
     ELSE ""
 \* finding signature: input class + failure class; a crash is attributed to the call form
 Sig(k, x, failure, form) ==
-    IF failure = "crash" THEN "form:" \o form \o ".crash." \o (IF x.err THEN "when_read_fails" ELSE k \o "." \o x.tag)
+    IF failure = "crash" THEN "form:" \o form \o ".crash." \o (IF x.err \/ x.lax THEN "when_read_fails" ELSE k \o "." \o x.tag)
     ELSE k \o "." \o x.tag \o "." \o failure
 
 (***************************************************************************)
